@@ -23,6 +23,7 @@ import (
 	"verif/internal/engine"
 	"verif/internal/ev"
 	"verif/internal/load"
+	"verif/internal/rules"
 )
 
 type absintSlice = absint.Slice
@@ -88,6 +89,16 @@ func constU64(info *types.Info, e ast.Expr) (uint64, bool) {
 // statusBytes evaluates a Status composite literal into the 20-byte vector,
 // laying fields out in declaration order, little endian (the layout is
 // cross-checked against Status.Bytes by C17/layout).
+// zexLayout is the layout of a machine-state vector of the exerciser (the tstr
+// macro of zexdoc.asm/zexall.asm: four instruction bytes, memop, iy, ix, hl,
+// de, bc, flags, accumulator, sp; words low byte first), keyed by the names
+// the fields carry in zex.Status.
+var zexLayout = map[string][2]int{
+	"Inst0": {0, 1}, "Inst1": {1, 1}, "Inst2": {2, 1}, "Inst3": {3, 1},
+	"MemOP": {4, 2}, "IY": {6, 2}, "IX": {8, 2}, "HL": {10, 2}, "DE": {12, 2}, "BC": {14, 2},
+	"Flags": {16, 1}, "Accum": {17, 1}, "SP": {18, 2},
+}
+
 func statusBytes(info *types.Info, lit *ast.CompositeLit, st *types.Struct) ([20]byte, error) {
 	var out [20]byte
 	vals := make([]uint64, st.NumFields())
@@ -116,11 +127,17 @@ func statusBytes(info *types.Info, lit *ast.CompositeLit, st *types.Struct) ([20
 		}
 		vals[idx] = v
 	}
-	off := 0
+	if st.NumFields() != len(zexLayout) {
+		return out, fmt.Errorf("UNRESOLVED anchor: zex.Status has %d fields, the exerciser's state vector has %d components", st.NumFields(), len(zexLayout))
+	}
 	for j := 0; j < st.NumFields(); j++ {
 		b, ok := st.Field(j).Type().Underlying().(*types.Basic)
 		if !ok {
 			return out, fmt.Errorf("field %s is not an integer", st.Field(j).Name())
+		}
+		lay, known := zexLayout[st.Field(j).Name()]
+		if !known {
+			return out, fmt.Errorf("UNRESOLVED anchor: field %s of zex.Status is not a component of the exerciser's state vector", st.Field(j).Name())
 		}
 		n := 0
 		switch b.Kind() {
@@ -128,24 +145,125 @@ func statusBytes(info *types.Info, lit *ast.CompositeLit, st *types.Struct) ([20
 			n = 1
 		case types.Uint16:
 			n = 2
-		default:
-			return out, fmt.Errorf("field %s has unexpected type %s", st.Field(j).Name(), b)
 		}
-		if off+n > 20 {
-			return out, fmt.Errorf("Status is larger than 20 bytes")
+		if n != lay[1] {
+			return out, fmt.Errorf("field %s has type %s, the component has %d byte(s)", st.Field(j).Name(), b, lay[1])
 		}
 		for k := 0; k < n; k++ {
-			out[off+k] = byte(vals[j] >> (8 * uint(k)))
+			out[lay[0]+k] = byte(vals[j] >> (8 * uint(k)))
 		}
-		off += n
-	}
-	if off != 20 {
-		return out, fmt.Errorf("Status is %d bytes, expected 20", off)
 	}
 	return out, nil
 }
 
+// goTable evaluates a table of cases: from the constant composite literals
+// when the table is written that way (go/types constant evaluation), otherwise
+// by interpreting the package initialiser concretely (constructor functions,
+// shared vector sets).
 func goTable(cx *Ctx, pk *packages.Package, table string) ([]*zrec, error) {
+	recs, err := goTableLiterals(cx, pk, table)
+	if err == nil {
+		return recs, nil
+	}
+	if recs2, err2 := goTableByInit(cx, pk, table); err2 == nil {
+		return recs2, nil
+	} else if os.Getenv("VERIF_DEBUG") != "" {
+		fmt.Fprintln(os.Stderr, "goTableByInit:", err2)
+	}
+	return nil, err
+}
+
+// goTableByInit reads the table out of the state the package initialiser leaves.
+func goTableByInit(cx *Ctx, pk *packages.Package, table string) ([]*zrec, error) {
+	sp := cx.P.SSAPkg(zexPkg)
+	if sp == nil || sp.Func("init") == nil || sp.Var(table) == nil {
+		return nil, fmt.Errorf("UNRESOLVED anchor: %s.%s", zexPkg, table)
+	}
+	statusObj := pk.Types.Scope().Lookup("Status")
+	if statusObj == nil {
+		return nil, fmt.Errorf("UNRESOLVED anchor: zex.Status")
+	}
+	statusSt, ok := statusObj.Type().Underlying().(*types.Struct)
+	if !ok {
+		return nil, fmt.Errorf("zex.Status is not a struct")
+	}
+	c := dom.NewCtx()
+	in := absint.New(cx.P, c, dom.NewTrace(c))
+	in.NoGlobalEvents = true
+	in.LenientExternals = true
+	in.Unroll = true
+	if g := sp.Var("init$guard"); g != nil {
+		in.InitOverride["global:"+g.RelString(nil)+"|"] = c.Const(1, 0)
+	}
+	_, out, err := in.Run(sp.Func("init"), nil, absint.NewState())
+	if err != nil {
+		return nil, err
+	}
+	tv, ok := out.Get("global:"+sp.Var(table).RelString(nil), "")
+	sl, isSlice := tv.(*absint.Slice)
+	if !ok || !isSlice || sl.Root == "" {
+		return nil, fmt.Errorf("%s is not a slice built by package initialisation", table)
+	}
+	n, isc := sl.Len.IsConst()
+	if !isc {
+		return nil, fmt.Errorf("%s has a non-constant length", table)
+	}
+	konst := func(path string, w int) (uint64, error) {
+		v, ok := out.Get(sl.Root, path)
+		bv, isBV := v.(dom.BV)
+		if !ok || !isBV || len(bv) != w {
+			return 0, fmt.Errorf("%s is not an initialised %d-bit value", path, w)
+		}
+		k, isc := bv.IsConst()
+		if !isc {
+			return 0, fmt.Errorf("%s is not a constant", path)
+		}
+		return k, nil
+	}
+	var recs []*zrec
+	for i := 0; i < int(n); i++ {
+		base := fmt.Sprintf("%s[%d]", sl.Path, sl.Lo+i)
+		z := &zrec{name: fmt.Sprintf("%s[%d]", table, i), pos: cx.P.Pos(sp.Var(table).Pos())}
+		m, err := konst(base+".FlagMask", 8)
+		if err != nil {
+			return nil, err
+		}
+		z.mask = uint8(m)
+		for k, vn := range []string{"BaseCase", "IncVec", "ShiftVec"} {
+			if statusSt.NumFields() != len(zexLayout) {
+				return nil, fmt.Errorf("UNRESOLVED anchor: zex.Status has %d fields", statusSt.NumFields())
+			}
+			for j := 0; j < statusSt.NumFields(); j++ {
+				lay, known := zexLayout[statusSt.Field(j).Name()]
+				if !known {
+					return nil, fmt.Errorf("UNRESOLVED anchor: field %s of zex.Status", statusSt.Field(j).Name())
+				}
+				v, err := konst(base+"."+vn+"."+statusSt.Field(j).Name(), lay[1]*8)
+				if err != nil {
+					return nil, err
+				}
+				for b := 0; b < lay[1]; b++ {
+					z.vec[k][lay[0]+b] = byte(v >> (8 * uint(b)))
+				}
+			}
+		}
+		crc, err := konst(base+".Expect", 32)
+		if err != nil {
+			return nil, err
+		}
+		z.crc = uint32(crc)
+		dv, _ := out.Get(sl.Root, base+".Desc")
+		ds, isStr := dv.(*absint.Str)
+		if !isStr || ds.Const == nil {
+			return nil, fmt.Errorf("%s.Desc is not a constant string", base)
+		}
+		z.desc = *ds.Const
+		recs = append(recs, z)
+	}
+	return recs, nil
+}
+
+func goTableLiterals(cx *Ctx, pk *packages.Package, table string) ([]*zrec, error) {
 	obj := pk.Types.Scope().Lookup(table)
 	if obj == nil {
 		return nil, fmt.Errorf("UNRESOLVED anchor: %s.%s", zexPkg, table)
@@ -614,8 +732,9 @@ func c17Writers(cx *Ctx, r *ev.Report) {
 	rule := "NO-WRITERS(tables): no function stores to zex.DocCases, zex.AllCases or any Case variable (only package initialisation does)"
 	var det []string
 	n := 0
+	initFns := rules.InitClosure(allFunctions(cx.P))
 	for fn := range allFunctions(cx.P) {
-		if fn.Name() == "init" && fn.Pkg == sp {
+		if initFns[fn] && fn.Pkg == sp {
 			continue
 		}
 		for _, b := range fn.Blocks {
@@ -773,7 +892,7 @@ func enclosingFunc(f *ast.File, pos token.Pos) *ast.FuncDecl {
 // the exerciser's state block).
 func c17Layout(cx *Ctx, r *ev.Report) {
 	key := "C17/layout/func=(Status).Bytes"
-	rule := "LAYOUT: the summary of zex.Status.Bytes is the 20-byte vector of the fields in declaration order, 16-bit fields low byte first"
+	rule := "LAYOUT: the summary of zex.Status.Bytes is the exerciser's 20-byte state vector (Inst0..3, MemOP, IY, IX, HL, DE, BC, Flags, Accum, SP by field name; 16-bit fields low byte first)"
 	fn := cx.P.Method(zexPkg, "Status", "Bytes")
 	if fn == nil {
 		r.Undecide(key, rule, "", "UNRESOLVED anchor: zex.Status.Bytes")
@@ -796,12 +915,23 @@ func c17Layout(cx *Ctx, r *ev.Report) {
 		return
 	}
 	st := fn.Params[0].Type().Underlying().(*types.Struct)
-	var want []dom.BV
+	want := make([]dom.BV, 20)
 	for j := 0; j < st.NumFields(); j++ {
 		w := int(cx.P.Sizes.Sizeof(st.Field(j).Type())) * 8
+		lay, known := zexLayout[st.Field(j).Name()]
+		if !known || lay[1]*8 != w {
+			r.Undecide(key, rule, pos, "UNRESOLVED anchor: field "+st.Field(j).Name()+" of zex.Status is not a component of the exerciser's state vector")
+			return
+		}
 		v := a.c.Atom("Init("+st.Field(j).Name()+")", w)
 		for k := 0; k < w/8; k++ {
-			want = append(want, v.Slice(8*k, 8*k+8))
+			want[lay[0]+k] = v.Slice(8*k, 8*k+8)
+		}
+	}
+	for _, wv := range want {
+		if wv == nil {
+			r.Undecide(key, rule, pos, "UNRESOLVED anchor: zex.Status does not have all components of the exerciser's state vector")
+			return
 		}
 	}
 	var det []string
